@@ -87,8 +87,8 @@ type SetRecord struct {
 	Anomalies []string `json:"anomalies,omitempty"`
 	Failed    bool     `json:"failed,omitempty"`
 	// raw payloads
-	RawUpdates []*sdcpb.Update `json:"-"`
-	RawDeletes []*sdcpb.Path   `json:"-"`
+	RawUpdates []*sdcpb.Update     `json:"-"`
+	RawDeletes []*sdcpb.Path       `json:"-"`
 	Source     target.TargetSource `json:"-"`
 }
 
